@@ -1,4 +1,4 @@
 #!/bin/bash
 # every behaviour-preserving patch we have (kept twins under seeded/refactor-*, candidates in scratch worktrees) against all 20 checks
-ls /verif/seeded/refactor-*/patch.diff /tmp/wr_C*/_refactor/patch.diff 2>/dev/null | sort -u | \
+ls /verif/seeded/refactor*/patch.diff /tmp/wr_C*/_refactor/patch.diff 2>/dev/null | sort -u | \
   xargs -P 10 -I{} sh -c 'out=$(MAXL=6 /verif/tools/eval_refactor.sh {} 2>&1 | grep -v "^== done"); echo "### {}"; [ -n "$out" ] && echo "$out"' 
